@@ -13,6 +13,7 @@ pub mod c03;
 pub mod c04;
 pub mod c11;
 pub mod c17;
+pub mod c17_index;
 
 pub fn dispatch(ctx: &mut Ctx) -> bool {
     match ctx.prop.as_str() {
